@@ -90,8 +90,25 @@ def indexOfJob (js : List Job) (p first : Nat) : Option Nat :=
     | j :: r, i => if j.pipe = p ∧ j.first = first then some i else go r (i + 1)
   go js 0
 
+/-- After `Run` returned, its deferred `f.Close()` makes the reader's scanner fail early: the reader submits a shorter
+last batch (or none) and sends on `done`. The log does not contain the close; the truncation is inferred from the
+size the reader reports next (`rwrite n` with n smaller than the model's batch, or `rdone` while lines are unread)
+and is accepted only as the model's `rTrunc` action (enabled only once the local context is cancelled). -/
+def inferTrunc (s : State) (e : Ev) (rest : List Ev) : State :=
+  let P := s.pipe e.pipe
+  if P.localCancelled = true ∧ P.rpc = .sel then
+    match e.kind with
+    | "rtok" =>
+      match (rest.find? (fun x => x.kind = "rwrite" ∧ x.pipe = e.pipe)).map (·.n) with
+      | some n => if n < P.cur then (step s (.rTrunc e.pipe n)).getD s else s
+      | none => s
+    | "rdone" => (step s (.rTrunc e.pipe 0)).getD s
+    | _ => s
+  else s
+
 /-- one logged event → (checked) model action; `sent` = the (worker, pipe, first) triples whose select took the send branch -/
-def applyEv (sent : List (Nat × Nat × Nat)) (s : State) (e : Ev) : Except String State :=
+def applyEv (sent : List (Nat × Nat × Nat)) (s0 : State) (e : Ev) (rest : List Ev) : Except String State :=
+  let s := inferTrunc s0 e rest
   let P := s.pipe e.pipe
   let w := e.wid - 1
   let act (a : Action) : Except String State :=
@@ -154,7 +171,7 @@ def applyEv (sent : List (Nat × Nat × Nat)) (s : State) (e : Ev) : Except Stri
 def replay (sent : List (Nat × Nat × Nat)) : State → List Ev → Nat → Except String State
   | s, [], _ => .ok s
   | s, e :: es, i =>
-    match applyEv sent s e with
+    match applyEv sent s e es with
     | .ok s' => replay sent s' es (i + 1)
     | .error why => .error s!"{why} at-event {i} {e.kind},{e.pipe},{e.wid},{e.n}"
 
